@@ -140,6 +140,25 @@ nd::harnesses! {
         assert!(live() == 0);
     }
 
+    /// The same for a GROUP object: its container releases the instance first, the context after it.
+    #[kani::unwind(4)]
+    fn c07_group_instance_destroyed_before_context_released() {
+        reset();
+        ctx_reset();
+        let v: u32 = nd::any();
+        let with_observer: bool = nd::any();
+        let base = Ctx::new();
+        let grp = group_obj!((P::new(v), base.clone()) as crate::c06::BGrp);
+        let floor = if with_observer { 1 } else { core::mem::forget(base); 0 };
+        unsafe { IN_CONSUMING_CALL = true; CTX_SEEN_AT_SELF_DROP = -1; }
+        drop(grp);
+        unsafe {
+            IN_CONSUMING_CALL = false;
+            assert!(CTX_SEEN_AT_SELF_DROP >= floor + 1, "the group's own context clone is alive while its instance is destroyed");
+        }
+        assert!(live() == 0);
+    }
+
     /// A tree of objects sharing one context: symbolic sequence of {obtain owned child, obtain owned
     /// group child, drop a child}, then a symbolic ending {drop parent, finish (consume), into_leaf
     /// (consume, result keeps the context)}, children dropped before or after the parent.
